@@ -120,6 +120,15 @@ Theorem C17_prephased_untouched_fixed :
 Proof. exact prephased_untouched_fixed. Qed.
 Print Assumptions C17_prephased_untouched_fixed.
 
+(* The repaired rule changes nothing when no call of the input is written with `|`: on such inputs
+   (the `whatshap unphase` output in particular) both rules give the same result or the same error. *)
+Theorem C17_rules_agree_on_unphased :
+  forall pr ref inp readss,
+    (forall r c, In r inp -> In c (v_calls r) -> c_phased c = false) ->
+    haplotagphase Fixed pr ref inp readss = haplotagphase Cur pr ref inp readss.
+Proof. exact rules_agree_on_unphased. Qed.
+Print Assumptions C17_rules_agree_on_unphased.
+
 (* Side result about the filters: the two run lengths are each capped at the threshold, so the test
    `max_length > cut_homopolymers` never holds — --cut-poly has no effect, in any reference. *)
 Theorem C17_homopolymer_filter_never_fires :
